@@ -449,6 +449,28 @@ theorem copies_fresh_split (h : Heap α) (a : Arr) (spw m start : Nat) (src : Ar
   · intro i v; rw [write_invisible _ _ _ _ _ hne, s3 src hs]
   · intro i v; rw [write_invisible _ _ _ _ _ (Ne.symm hne)]
 
+/-- **copies are independent** (the four copy paths of the property in one statement): for any
+existing array `src` — in particular the source's own component arrays — the `TimeSeries` copy
+constructor, the components stored by the `SeismicRecording3C` constructor, `from_seismic_recording_3c`
+and every `split` window share no memory with `src`; a write through the copy leaves `src` as it was,
+and a write through `src` leaves the copy as it was -/
+theorem copies_fresh (h : Heap α) (r : Rec3Ref) (hv : h.valid r.ns ∧ h.valid r.ew ∧ h.valid r.vt)
+    (src : Arr) (hs : h.valid src) (spw m start : Nat) :
+    (sharesMemory src (tsCopy h src).2 = false ∧
+      (∀ i v, ((tsCopy h src).1.write (tsCopy h src).2 i v).read src = h.read src) ∧
+      (∀ i v, ((tsCopy h src).1.write src i v).read (tsCopy h src).2 = h.read src)) ∧
+    (∀ c ∈ arrs3 (ctor3 h r).2, sharesMemory src c = false ∧
+      (∀ i v, ((ctor3 h r).1.write c i v).read src = h.read src) ∧
+      (∀ i v, ((ctor3 h r).1.write src i v).read c = (ctor3 h r).1.read c)) ∧
+    (∀ c ∈ arrs3 (copy3 h r).2, sharesMemory src c = false ∧
+      (∀ i v, ((copy3 h r).1.write c i v).read src = h.read src) ∧
+      (∀ i v, ((copy3 h r).1.write src i v).read c = (copy3 h r).1.read c)) ∧
+    (∀ w ∈ (splitRefs h src spw m start).2, sharesMemory src w = false ∧
+      (∀ i v, ((splitRefs h src spw m start).1.write w i v).read src = h.read src) ∧
+      (∀ i v, ((splitRefs h src spw m start).1.write src i v).read w = (splitRefs h src spw m start).1.read w)) :=
+  ⟨copies_fresh_ts h src src hs, copies_fresh_ctor h r hv src hs, (copies_fresh_copy h r hv src hs).2.2.2,
+   (copies_fresh_split h src spw m start src hs).2⟩
+
 /-- positive control of the location model: `trim` keeps a VIEW — the trimmed array shares
 memory with the array it was cut from (so the model does not call everything fresh) -/
 theorem trim_view_shares (a : Arr) (s e : Nat) (hse : s ≤ e) (he : e < a.len) :
